@@ -71,6 +71,14 @@ def run(ctx):
         case = {'kind': info['kind'], 'info': info, 'history': [h[0] for h in hist],
                 'corrs': [[h[1].M.tolist(), h[1].t.tolist()] for h in hist if h[0] == 'S'], 'x': x, 'y': y}
         ctx.case(case, nontrivial=bool(hist) or info['kind'] in ('sip', 'siplin'), branch=info['kind'] + ':h%d' % len(hist))
+        if info['kind'] == 'lut':
+            # bilinear look-up tables are only piecewise smooth: at a probe pixel that straddles a cell edge of
+            # the 9x9 tables "the local scale" is not defined to 1e-7 (inside a cell the pixel area and the
+            # derivative agree exactly), so the probe is moved to the middle of its cell
+            cw, ch = (nx - 1) / 8.0, (ny - 1) / 8.0
+            x = (math.floor(x / cw) + rng.uniform(0.2, 0.8)) * cw
+            y = (math.floor(y / ch) + rng.uniform(0.2, 0.8)) * ch
+            case['x'], case['y'] = x, y
         ps = c.tanp_pixel_scale(x, y)
         ref = fd_scale(c, x, y)
         if not (abs(ps - ref) <= 1e-7 * ref):
